@@ -161,6 +161,10 @@ func (e *Exec) RunHarness(name string, args []int64) (err error) {
 			return fmt.Errorf("harness param %d of type %s", i, pt)
 		}
 	}
+	if e.TwoRun != "" {
+		e.runTwoRun(st, fn, vals)
+		return nil
+	}
 	e.CallFunction(st, fn, vals, nil, "harness")
 	return nil
 }
